@@ -9,6 +9,8 @@
 #include <fstream>
 #include "libavoid/geometry.h"
 #include "libavoid/geomtypes.h"
+#include "libavoid/libavoid.h"
+#include "libavoid/scanline.h"
 #include <iostream>
 namespace ls {
 #include "libvpsc/linesegment.h"
@@ -188,6 +190,25 @@ static int simpMode(const char *inPath, const char *outPath, const char *chunk)
             j.arr().i(v).i((long long)c.second.x).i((long long)c.second.y).end();
         }
         j.end();
+        // the cache the library itself builds (buildConnectorRouteCheckpointCache, scanline.cpp) for a connector whose displayed route
+        // is p and whose routing checkpoints are the cache's points, in cache order
+        {
+            Router router(OrthogonalRouting);
+            ConnRef *conn = new ConnRef(&router, ConnEnd(p.ps[0]), ConnEnd(p.ps[p.size() - 1]));
+            conn->setRoutingType(ConnType_Orthogonal);
+            std::vector<Checkpoint> cpl;
+            for (auto &c : p.checkpointsOnRoute) cpl.push_back(Checkpoint(c.second));
+            conn->setRoutingCheckpoints(cpl);
+            router.processTransaction();      // registers the connector with the router (and routes it; the route is replaced below)
+            PolyLine pl(p.size()); pl.ps = p.ps;
+            conn->set_route(pl);
+            buildConnectorRouteCheckpointCache(&router);
+            j.k("built").arr();
+            for (auto &c : conn->displayRoute().checkpointsOnRoute) j.arr().i((long long)c.first).i((long long)c.second.x).i((long long)c.second.y).end();
+            j.end();
+            clearConnectorRouteCheckpointCache(&router);
+            j.k("cleared").i((long long)conn->displayRoute().checkpointsOnRoute.size());
+        }
         // checkpointsOnSegment() of the simplified route, for every segment and the three index modifiers
         j.k("cos").arr();
         for (size_t sgm = 0; sgm + 1 < q.size(); sgm++)
